@@ -472,6 +472,15 @@ func limFamily() []Pat {
 			}
 		}
 	}
+	// H. alternation branches whose first runes differ but share leading UTF-8 bytes (a common prefix computed on
+	// bytes ends inside a rune)
+	for _, pr := range [][2]string{{"高", "髙"}, {"😀", "😁"}, {"é", "è"}, {"中", "丮"}} {
+		add(`%sx|%sy`, pr[0], pr[1])
+		add(`(%sx)|(%sy)`, pr[0], pr[1])
+		add(`(?:a(?:%sx|%sy))+`, pr[0], pr[1])
+		add(`\B%sx|\B%sy`, pr[0], pr[1])
+		add(`a%sx|a%sy|a%s`, pr[0], pr[1], pr[0])
+	}
 	seen := map[string]bool{}
 	var out []Pat
 	for _, s := range srcs {
